@@ -104,8 +104,12 @@ CLAIMS["C02"] = _b(
     "connection puts nothing into any queue (foreign_reply_not_delivered); when c aborts its pending call and is still served after "
     "the turn, exactly one CallFunctionReply(n) was queued for it in that turn and it says Aborted (abort_is_answered). Per handler, every state: no_service, "
     "owner_reply_forwarded, unknown_reply_ignored, foreign_reply_ignored, abort_answers_once, abort_twice_silent, "
-    "reply_after_abort_is_dropped. Partial: that a pending call IS answered when its service or object is destroyed or its owner "
-    "disconnects (callee side of the invariant) and absence of panics are decided by "
+    "reply_after_abort_is_dropped. Callee side, every reachable state, by the invariant between function_calls and "
+    "Service::function_calls together with the registry invariant of C03: every call in the table is held by the service entry it is "
+    "for, that service is registered, its object exists and its owner is connected (pending_call_has_live_callee); hence a call that "
+    "is still pending at its caller has a live callee - once the service or its object is destroyed or the owner has disconnected in "
+    "any way the entry is gone (pending_entry_has_live_callee) and, with the balance theorem, exactly one reply has been delivered "
+    "(ended_callee_means_answered). Partial: that this synthesized reply says InvalidService is decided by "
     "the correspondence runs (overlapping calls, serial reuse also right after an abort, aborts, destruction, all four disconnect "
     "modes, mixed versions).", "DESIGN.md section 6 C02 and 10.2")
 CLAIMS["C03"] = _b(
@@ -113,16 +117,23 @@ CLAIMS["C03"] = _b(
     "invalid-object / foreign-object exactly by registry state and ownership, register the entity under both keys for the sender, and "
     "take cookies from a counter that is advanced on every issue (create_object_*, destroy_object_*, create_service_*); version "
     "queries succeed exactly while the cookie is live (query_version_live). Uniqueness per uuid holds by construction (maps keyed by "
-    "uuid in code and model). Cascading destruction and cleanup on disconnect over histories are decided by the correspondence runs "
-    "over a pool of 4 uuids (collisions, re-creation, foreign access, disconnects): partial on those clauses.", "DESIGN.md section 6 C03")
+    "uuid in code and model). For ALL histories the registry cross-reference invariant holds between two events "
+    "(registry_cross_references_all_histories): cookie map and uuid map of objects and of services name each other, the owner of every "
+    "object is a connected connection that lists it, a connection lists only objects it owns, every service hangs off a live object "
+    "that lists it; hence cascading destruction (services_of_a_dead_object_are_dead, destroy_object_unregisters, "
+    "destroy_service_unregisters) and cleanup on disconnect in any of the four ways (objects_of_a_gone_connection_are_gone). Partial: "
+    "the messages the cascade sends (ServiceDestroyed, bus events) are decided by the correspondence runs over a pool of 4 uuids "
+    "(collisions, re-creation, foreign access, disconnects, connections coming back to services they had subscribed to).", "DESIGN.md section 6 C03 and 10.2")
 CLAIMS["C04"] = _b(
     "Machine-checked proofs (Lean 4): emit_event's fan-out for every broker state is exactly one copy, payload unchanged, per connection "
     "subscribed to the event id or to all events (fanout_exact), non-owner emits are dropped (foreign_emit_dropped); for ALL histories of "
     "subscribe/unsubscribe on an event id the first/last flags that make the broker notify the owner are raised exactly when the "
     "subscriber set changes between empty and non-empty, membership changes only for the acting connection and no empty entry is kept "
     "(subscribe_transition, unsubscribe_transition, transitions_all_histories; likewise for all-events subscriptions). Agreement of the "
-    "per-connection mirror and ServiceDestroyed fan-out under disconnects is decided by the correspondence runs: partial there.",
-    "DESIGN.md section 6 C04")
+    "per-connection mirror and ServiceDestroyed fan-out under disconnects is decided by the correspondence runs, and the owner's "
+    "client-side record of what it was told to produce (which filters what it emits) by scenario B of the sys harness with real "
+    "clients (every proxy subscribed to an event id or to all events of a live service must get what the owner emits): partial there.",
+    "DESIGN.md section 6 C04 and 10.6")
 CLAIMS["C05"] = _b(
     "Machine-checked proofs (Lean 4): an inductive invariant over ALL histories of broker events shows every stored channel has a "
     "claimed end, sender credit <= receiver credit, and equal credits at or below the low-water mark (chan_inv_all_histories); credit "
@@ -139,7 +150,9 @@ CLAIMS["C09"] = _b(
     "where the defect fixed in 2be3d48 breaks the proof; run-loop exit condition and shutdown events (finished_iff, "
     "broker_shutdown_queues_all, idle_shutdown_sets_flag); gauges for connections/objects/services (registry_gauges_all_histories); in "
     "every reachable state a call whose caller is no longer connected is marked aborted, so nothing is delivered for it any more "
-    "(calls_of_a_removed_connection_are_ended, no_connections_no_live_call; cross-reference invariant of C02). The rest of 'no residual state' is decided "
+    "(calls_of_a_removed_connection_are_ended, no_connections_no_live_call; cross-reference invariant of C02); for ALL histories, once "
+    "no connection is left all four registry maps are empty (no_connections_no_objects_no_services; registry invariant of C03). The rest "
+    "of 'no residual state' (channels and listeners of removed connections beyond their gauges, notifications) is decided "
     "by the correspondence runs: every scenario ends by closing everything (two orders), compares take_statistics with the model, the "
     "model's gauges with its map sizes, and requires Broker::run to finish: partial on those clauses.", "DESIGN.md section 6 C09")
 CLAIMS["C10"] = _b(
@@ -158,7 +171,10 @@ CLAIMS["C11"] = _b(
     "bus_listener.rs (channel_ops_do_not_panic, listener_enumeration_does_not_panic); unknown or foreign cookies/serials are ignored "
     "without touching other state (unknown_*, foreign_listener_untouched); the three debug_assert!s of ConnectionState::remove_call hold "
     "in every turn of Broker::run from every reachable state (remove_call_asserts_hold, by the cross-reference invariant of the call "
-    "tables proved for C02; fewer than 2^32 pending calls). The remaining expect(\"inconsistent state\") sites are "
+    "tables proved for C02; fewer than 2^32 pending calls); in every reachable state the expect(\"inconsistent state\") lookups of "
+    "call_function_reply, call_function and remove_service (incl. its loop over the calls the service holds) cannot fail "
+    "(call_reply_lookups_hold, call_function_lookups_hold, remove_service_lookups_hold; registry and callee-side invariants). The "
+    "remaining expect sites (subscription and introspection handlers) are "
     "cross-reference lookups whose unreachability is not proved; they are covered by the 'abuse' profile of the correspondence runs "
     "(panics caught around every poll, the model names the site, liveness probe of every surviving connection): partial.",
     "DESIGN.md section 6 C11")
